@@ -11,8 +11,9 @@
     Modelled here:
       * route/picker.go rrPicker             (one fetch-and-add per pick; the torn picker
                                                before fix 633ec31 as [rr_step_unrepaired])
-      * route/table.go:424-433 + route/target.go:72-124 + proxy/http_proxy.go:136-142
-                                               the redirect URL kept on the SHARED target
+      * route/table.go Lookup + route/target.go BuildRedirectURL + proxy/http_proxy.go
+                                               the redirect URL, built on a per-request copy of the target
+                                               (before fix ddf101c on the SHARED target: [rd_step_unrepaired])
       * a lookup with its shared effects made explicit ([lookup], for
         lookup_pure_modulo_shared)
     route/glob_cache.go is in Model/GlobCacheC06.v.  No proofs in this file. *)
@@ -221,7 +222,7 @@ Fixpoint render (o : uobj) : str :=
 Record rd_shared := { rd_heap : list uobj; rd_ptr : option nat }.   (* the URL objects; Target.RedirectURL *)
 Inductive rd_pc := DAlloc | DStrip | DFill | DHost | DRead | DDone.
 Record rd_local := { rd_at : rd_pc; rd_path : str; rd_host : str; rd_got : option (outcome str) }.
-Definition rd_init (path host : str) : rd_local := {| rd_at := DAlloc; rd_path := path; rd_host := host; rd_got := None |}.
+Definition rd_init_unrepaired (path host : str) : rd_local := {| rd_at := DAlloc; rd_path := path; rd_host := host; rd_got := None |}.
 Definition rd_goto (l : rd_local) (pc : rd_pc) : rd_local := {| rd_at := pc; rd_path := rd_path l; rd_host := rd_host l; rd_got := None |}.
 Definition rd_ret (l : rd_local) (r : outcome str) : rd_local := {| rd_at := DDone; rd_path := rd_path l; rd_host := rd_host l; rd_got := Some r |}.
 
@@ -235,7 +236,7 @@ Definition rd_modify (f : uobj -> uobj) (s : rd_shared) (l : rd_local) (next : r
   | None => (s, rd_ret l Panic)
   end.
 
-Definition rd_step (tmpl : uobj) (s : rd_shared) (l : rd_local) : rd_shared * rd_local :=
+Definition rd_step_unrepaired (tmpl : uobj) (s : rd_shared) (l : rd_local) : rd_shared * rd_local :=
   match rd_at l with
   | DAlloc => ({| rd_heap := rd_heap s ++ [tmpl]; rd_ptr := Some (length (rd_heap s)) |}, rd_goto l DStrip)
   | DStrip => rd_modify strip s l DFill
@@ -252,10 +253,32 @@ Definition rd_step (tmpl : uobj) (s : rd_shared) (l : rd_local) : rd_shared * rd
   | DDone => (s, l)
   end.
 
+(* THE CODE AS IT IS (fix commit ddf101c "the redirect URL of a request is built on a copy of the shared
+   target"): Table.Lookup does `redirect := *target; target = &redirect` before BuildRedirectURL and returns
+   the per-request copy; ServeHTTP reads the URL from that copy.  The same statements as above, but on the
+   goroutine's OWN object: the shared target is never written after the table is built, so [rd_step] leaves
+   the shared state alone.  ([rd_step_unrepaired] above is the code before the fix, kept for the refutation.) *)
+Record rq_local := { rq_at : rd_pc; rq_path : str; rq_host : str; rq_obj : uobj; rq_got : option (outcome str) }.
+Definition rd_init (path host : str) : rq_local :=
+  {| rq_at := DAlloc; rq_path := path; rq_host := host; rq_obj := []; rq_got := None |}.
+Definition rq_set (l : rq_local) (pc : rd_pc) (o : uobj) : rq_local :=
+  {| rq_at := pc; rq_path := rq_path l; rq_host := rq_host l; rq_obj := o; rq_got := None |}.
+Definition rd_step (tmpl : uobj) (s : rd_shared) (l : rq_local) : rd_shared * rq_local :=
+  match rq_at l with
+  | DAlloc => (s, rq_set l DStrip tmpl)                                   (* copy; RedirectURL = &url.URL{template} *)
+  | DStrip => (s, rq_set l DFill (strip (rq_obj l)))
+  | DFill => (s, rq_set l DHost (fill (rq_obj l) (rq_path l)))
+  | DHost => (s, rq_set l DRead (fill_host (rq_obj l) (rq_host l)))
+  | DRead => (s, {| rq_at := DDone; rq_path := rq_path l; rq_host := rq_host l; rq_obj := rq_obj l;
+                    rq_got := Some (Ok (render (rq_obj l))) |})            (* ServeHTTP: t.RedirectURL.String() *)
+  | DDone => (s, l)
+  end.
+Definition rd_results (ts : list rq_local) : list (option (outcome str)) := map rq_got ts.
+
 Definition rd_start : rd_shared := {| rd_heap := []; rd_ptr := None |}.
 (* what the request with path [p] must be answered with *)
 Definition rd_own (tmpl : uobj) (p h : str) : str := render (fill_host (fill (strip tmpl) p) h).
-Definition rd_results (ts : list rd_local) : list (option (outcome str)) := map rd_got ts.
+Definition rd_results_unrepaired (ts : list rd_local) : list (option (outcome str)) := map rd_got ts.
 
 (* ---------------------------------------------------------------- a lookup with its shared effects explicit *)
 (* Table.Lookup restricted to what C06 needs: the candidate host keys arrive in visiting
@@ -301,10 +324,7 @@ Definition lookup (hosts : list (list route)) (path host : str) (s : lk_shared) 
           let cur' := if Nat.eqb (r_ntargets r) 1 then lk_cursor s
                       else fun x => if eq_rid x id then N.modulo (lk_cursor s id + 1) two64 else lk_cursor s x in
           let loc := match r_redirect r with Some tm => Some (rd_own tm path host) | None => None end in
-          let red' := match loc with
-                      | Some u => fun x => if Nat.eqb x t then Some u else lk_redirect s x
-                      | None => lk_redirect s
-                      end in
+          let red' := lk_redirect s in     (* since ddf101c the URL is built on a copy: no shared write *)
           (Ok (Some {| lk_route := id; lk_target := t; lk_location := loc |}),
            {| lk_cursor := cur'; lk_redirect := red' |})
       | Err k => (Err k, s)
